@@ -302,40 +302,47 @@ structure Out where
   symMod : Nat
   deriving Repr, DecidableEq
 
+/-- the tail of DecodeRow: checksum test (`checksumTotal -= multiplier * lastCode; checksumTotal % 103 != lastCode`),
+    the "false positive" test on an empty result, removal of the check character's text -/
+def finish (s : St) : Res (List Nat) :=
+  if (s.total - s.mult * s.lastCode) % 103 ≠ s.lastCode then .error .checksum
+  else
+    let res := s.result.reverse
+    if res.length = 0 then .error .notFound
+    else if s.lastPrintable then
+      let k := if s.codeSet = 99 then 2 else 1
+      if res.length < k then .error (.panic "slice bounds out of range")
+      else .ok (res.take (res.length - k))
+    else .ok res
+
+/-- the code set a start code selects (`switch startCode`) -/
+def codeSetOf (startCode : Nat) : Option Nat :=
+  if startCode = 103 then some 101 else if startCode = 104 then some 100
+  else if startCode = 105 then some 99 else none
+
+/-- the loop variables before the first iteration -/
+def st0 (codeSet startCode : Nat) : St := ⟨codeSet, [], true, false, false, false, 0, 0, startCode, 0, 0⟩
+
 /-- `code128Reader.DecodeRow(rowNumber, row, hints)`; `gs1` = the ASSUME_GS1 key is present in the hint map -/
 def decodeRow (D : VarDom) (P : List (List Nat)) (row : List Bool) (gs1 : Bool) : Res Out :=
   match findStartPattern D P row with
   | .error e => .error e
   | .ok (start0, start1, startCode) =>
-    let codeSet? : Option Nat :=
-      if startCode = 103 then some 101 else if startCode = 104 then some 100
-      else if startCode = 105 then some 99 else none
-    match codeSet? with
+    match codeSetOf startCode with
     | none => .error .format
     | some codeSet =>
-      let s0 : St := ⟨codeSet, [], true, false, false, false, 0, 0, startCode, 0, 0⟩
-      match mainLoop D P row gs1 (row.length + 1) s0 ⟨[startCode], start0, start1⟩ with
+      match mainLoop D P row gs1 (row.length + 1) (st0 codeSet startCode) ⟨[startCode], start0, start1⟩ with
       | .error e => .error e
       | .ok (s, p) =>
         let lastPatternSize := p.nextStart - p.lastStart
         let nextStart := getNextUnset row p.nextStart
         if !(isRangeWhite row nextStart (min row.length (nextStart + (nextStart - p.lastStart) / 2))) then
           .error .notFound
-        else if (s.total - s.mult * s.lastCode) % 103 ≠ s.lastCode then .error .checksum
         else
-          let res := s.result.reverse
-          if res.length = 0 then .error .notFound
-          else
-            let text : Res (List Nat) :=
-              if s.lastPrintable then
-                let k := if s.codeSet = 99 then 2 else 1
-                if res.length < k then .error (.panic "slice bounds out of range")
-                else .ok (res.take (res.length - k))
-              else .ok res
-            match text with
-            | .error e => .error e
-            | .ok t =>
-              .ok { text := t, raw := p.raw.reverse, left2 := start1 + start0,
-                    right2 := 2 * p.lastStart + lastPatternSize, symMod := s.symMod }
+          match finish s with
+          | .error e => .error e
+          | .ok t =>
+            .ok { text := t, raw := p.raw.reverse, left2 := start1 + start0,
+                  right2 := 2 * p.lastStart + lastPatternSize, symMod := s.symMod }
 
 end Gzx.Row128
